@@ -74,9 +74,9 @@ func selfTest(c *lib.Ctx, dir string) error {
 	for name, h := range bads {
 		// the two linearizable histories come first in the same trace: they must be matched completely
 		// (high-water mark inside the third history), the non-linearizable one must not
-		evs := append(History{Events: good1.evs}.Rebased(0), History{Events: good2.evs}.Rebased(len(good1.evs))...)
+		evs := append(History{Events: good1.evs}.Rebased(0, 1), History{Events: good2.evs}.Rebased(len(good1.evs), 2)...)
 		goodLen := len(evs)
-		evs = append(evs, History{Events: h.evs}.Rebased(goodLen)...)
+		evs = append(evs, History{Events: h.evs}.Rebased(goodLen, 3)...)
 		v, err := lib.ValidateTrace(c, "TraceDaemonLin(selftest "+name+")", dir, "TraceDaemonLin", evs, 8*time.Minute)
 		if err != nil {
 			return err
